@@ -37,3 +37,28 @@ Theorem c14_created_from_source : forall now d s d' lg u,
   In (Ev EntryCreated u) lg \/ In (Ev GroupCreated u) lg ->
   In u (tree_uuids (db_root s)) /\ deleted_contains (db_deleted d) u = false.
 Proof. exact merge_creation_events_sound. Qed.
+
+(* ---------------- tree level (db/MergeLwwEntry.v, MergeLwwFrame.v, MergeLww.v) ----------------
+   For replicas with pairwise distinct UUIDs and any entry present on both sides, at any depth,
+   moved or not: after a successful merge the destination holds (unless the source tombstoned it and
+   the deletion is logged) an entry with the data of the side that modified it last, every history
+   item of that side, every modification time of the other side's history (the item itself when no
+   other item claims its time), the newer modification time, the history newest first, and - when
+   the older side had uncommitted changes - its current version as a history item. *)
+From KP Require Import MergeUnique MergeLwwEntry MergeLwwFrame MergeLww.
+Theorem c14_merge_keeps_newest : forall now d s d' lg e_d e_s ld ls,
+  uuids_unique (db_children d) -> uuids_unique (db_children s) ->
+  In e_d (ents (db_root d)) -> In e_s (ents (db_root s)) -> e_uuid e_d = e_uuid e_s ->
+  t_lm (e_times e_d) = Some ld -> t_lm (e_times e_s) = Some ls -> ld <> ls ->
+  merge now d s = Ok (d', lg) ->
+  exists e', newest_kept e_d e_s e' ld ls
+    /\ (In e' (ents (db_root d')) \/ tombstoned_and_logged s lg (e_uuid e_s)).
+Proof. exact merge_keeps_newest. Qed.
+
+(* entries the source does not have are untouched, unless a source tombstone deletes them *)
+Theorem c14_destination_only_entries_untouched : forall now d s d' lg e,
+  uuids_unique (db_children d) -> In e (ents (db_root d)) ->
+  ~ In (e_uuid e) (all_uuids (db_root s)) ->
+  merge now d s = Ok (d', lg) ->
+  In e (ents (db_root d')) \/ tombstoned_and_logged s lg (e_uuid e).
+Proof. exact merge_dest_only. Qed.
